@@ -316,6 +316,12 @@ def concrete_entries():
         if what == "init/degrees":
             inp = dict(degrees=degs, center=ctr, rpoints=ro(rg.points), rweights=ro(rg.weights))
             return inp, (lambda: AtomGrid(OneDGrid(inp["rpoints"], inp["rweights"], (0, np.inf)), degrees=degs, center=ctr)), []
+        if what == "init/degrees-array":
+            # per-shell degrees as a write-protected array with values that are not supported degrees (4, 6 resolve to 5, 7)
+            da = ro(np.array([3, 4, 5, 6, 5, 3]))
+            dl = [3, 4, 5, 6, 5, 3]
+            inp = dict(degrees_array=da, degrees_list=dl)
+            return inp, (lambda: (AtomGrid(rg, degrees=da), AtomGrid(rg, degrees=dl, rotate=3))), []
         if what == "init/sizes":
             inp = dict(sizes=sizes, center=ctr)
             return inp, (lambda: AtomGrid(rg, sizes=sizes, center=ctr, rotate=7)), []
@@ -470,7 +476,7 @@ def concrete_entries():
                  "index": lambda: (ug.coordinates_to_index(idx), ug.index_to_coordinates(7), tg.coordinates_to_index(tuple(idx))), "closest_point": lambda: (ug.closest_point(q[0], "closest"), ug.closest_point(q[1], "origin"))}
         return inp, calls[what], []
 
-    for w in ("init/degrees", "init/sizes", "from_pruned", "from_pruned/lists", "from_pruned/sizes", "from_preset", "integrate", "integrate_angular_coordinates", "spherical_average", "radial_component_splines",
+    for w in ("init/degrees", "init/degrees-array", "init/sizes", "from_pruned", "from_pruned/lists", "from_pruned/sizes", "from_preset", "integrate", "integrate_angular_coordinates", "spherical_average", "radial_component_splines",
               "interpolate", "convert_cartesian_to_spherical", "get_shell_grid", "moments", "get_localgrid", "integrate_angular_coordinates/r0", "spherical_average/r0", "radial_component_splines/r0", "interpolate/r0"):
         yield f"concrete/AtomGrid.{w}", (lambda w=w: ent_atom(w))
     for w in ("from_size", "from_pruned", "from_preset", "from_preset/list", "init/callable", "init/array", "init/hirshfeld", "integrate", "interpolate", "get_atomic_grid", "getitem", "get_localgrid", "dipole", "moments"):
